@@ -17,6 +17,7 @@ import json
 import random as pyrandom
 
 import vf
+import c15_tree
 
 BUILD = dict(extracted=['sched'], translators={'gen_sched'})
 
@@ -1302,7 +1303,10 @@ def run(ctx: vf.Ctx):
                 'worker timing (WAITING crossing SUBMIT_BATCH), with and without cancellation, ~12% not-enabled events; '
                 '(b) exhaustive interleavings (state-deduplicated DFS incl. every shuffle) of small scenarios on 2 workers; '
                 '(c) random inputs to the translated arithmetic vs the real methods and a textbook oracle; (d) oracle-only random schedules on '
-                'real Manager + DetachedServer objects (1-3 managers x 1-3 workers). After every event: all counters, caches '
+                'real Manager + DetachedServer objects (1-3 managers x 1-3 workers); (e) manager topology co-simulation: random '
+                'FIFO-respecting schedules (with/without cancellation, realistic/adversarial worker timing, ~10% not-enabled events) on a real '
+                'DetachedServer + 1-3 real Managers with 1-3 simulated workers each, every node and channel compared with the extracted '
+                'tree model after every event. After every event: all counters, caches '
                 'and channels compared with the extracted model, and the property oracle evaluated on the real fields. '
                 'non-trivial = at least one SUBMIT_BATCH was scheduled; distinct by event list')
     ctx.assumptions += [
@@ -1310,7 +1314,8 @@ def run(ctx: vf.Ctx):
         'relies on are shape-checked by the translator',
         'task unique ids are fresh (mailbox counters); channels are FIFO per direction per link',
         'manager topology: arithmetic translated and proved (send_up_or_schedule_tasks, update_upstream_idle_workers, routing), '
-        'no system-level co-simulation',
+        'link / node level theorems (read receipt found, bounds, across one level of any tree) proved; the system-level induction over '
+        'the tree is not proved, the tree model is co-simulated against real Manager + DetachedServer objects',
     ]
     ctx.trusted = ['Coq 8.16.1 kernel', 'ExtrOcamlBasic extraction, OCaml 4.13.1, coq/extract/sched_driver.ml',
                    'harness/gen/gen_sched.py (Python ast -> Gallina printer) and coq/rt/SchedPre.v (Python slice/index semantics; validated by direct correspondence)',
@@ -1324,8 +1329,13 @@ def run(ctx: vf.Ctx):
     # ---- corpus first ------------------------------------------------------
     cdir = vf.ROOT / 'corpus' / 'C15'
     cases = []
+    tcases = []                     # manager-topology cases (nws, events, kind)
     for f in sorted(cdir.glob('*.json')) if cdir.exists() else []:
         d = json.loads(f.read_text())
+        if 'nws' in d:
+            tcases.append((d['nws'], d['events'], 'corpus:' + f.name))
+            ctx.count('corpus_tree')
+            continue
         cases.append((d['n'], d.get('cls', 'DetachedServer'), d.get('lb', 0), d['events'], 'corpus:' + f.name))
         ctx.count('corpus')
 
@@ -1436,18 +1446,63 @@ def run(ctx: vf.Ctx):
                           what + ' [manager topology probe]')
     ctx.cov['manager_topology_probe'] = tstats
 
+    # ---- manager topology co-simulation: real Manager + DetachedServer objects vs coq/rt/SchedTree.v -----------
+    have_tree = have_model and vf.vo_ok('rt/SchedTree.v')
+    if have_model and not have_tree:
+        ctx.broken_obligation('coq/rt/SchedTree.v does not build: manager-topology correspondence not checked (oracle-only run)', ctx.build_log[-1500:])
+    for i in range(ctx.n(120, 6000) * scale):
+        rng = pyrandom.Random(ctx.rng.getrandbits(48))
+        nws = [rng.choice([1, 2, 2, 3]) for _ in range(rng.choice([1, 2, 2, 3]))]
+        cancels = rng.random() < 0.3
+        adv = rng.random() < 0.35
+        g = c15_tree.TreeGen(rng, nws, cancels, adv, budget=rng.choice([1, 2, 4, 6, 9]))
+        tcases.append((nws, g.run(rng.choice([30, 60, 120, 200])), 'random'))
+        ctx.count(f'treeco_managers={len(nws)}')
+        ctx.count('treeco_cancel' if cancels else 'treeco_cancel_free')
+        ctx.count('treeco_adversarial' if adv else 'treeco_realistic')
+    tlines, tspans = [], []
+    for nws, evs, kind in tcases:
+        ml = c15_tree.model_lines(nws, evs)
+        tspans.append((len(tlines), len(ml)))
+        tlines += ml
+    tout = vf.run_model('sched', tlines) if have_tree and tlines else None
+    tq = tex = 0
+    for (nws, evs, kind), (a, k) in zip(tcases, tspans):
+        mo = tout[a:a + k] if tout is not None else None
+        bad, w = c15_tree.check_case(ctx, nws, evs, mo)
+        ctx.case(('treeco', nws, evs), nontrivial=bool(w.wlog))
+        for e in evs:
+            ctx.count('tev_' + (e[0] if e[0] in ('tma', 'tmb') else str(e[1] if e[0] == 'ttop' else e[2])))
+        if mo is not None:
+            ctx.count('tree_events_not_enabled', sum(1 for x in mo if x == 'DISABLED'))
+            ctx.count('tree_events_enabled', sum(1 for x in mo if x.startswith('OK')) - 1)
+        if w.quiescent():
+            tq += 1
+            tex += int(not w.oracle())
+    ctx.cov['manager_topology_cosimulation'] = dict(runs=len(tcases), ending_quiescent=tq, quiescent_and_exact_at_every_level=tex,
+                                                    compared_with_model=tout is not None)
+
     ctx.cov['theorems_over_generated_code'] = [
         'get_num_of_tasks_sent_since', 'handle_waiting', 'is_my_worker', 'get_employee_responsible_for', 'ctm_step_size/ctm_lb/ctm_ub',
         'sw_w_id/sw_insufficient', 'assign_num_remaining/assign_remaining_tasks', 'schedule_body', 'send_up_or_schedule_tasks',
         'update_upstream_idle_workers', 'manager_handle_update', 'manager_handle_result_from_below', 'server_handle_update',
         'server_handle_result_count']
-    ctx.cov['uncovered'] = ['manager topology as a transition system (node-local theorems + oracle-only probe)',
+    ctx.cov['uncovered'] = ['manager topology: system-level induction over the tree (link/node theorems + co-simulated model + oracle)',
+                            'manager trees deeper than server-managers-workers (no co-simulation; the link/node theorems apply)',
                             'AttachedServer/DetachedServer client tables (C13)', 'real Worker threads (C07)']
 
 
 def replay(ctx, data):
     ctx.uses_translators = BUILD['translators']
     case = data['case']
+    if 'nws' in case:
+        nws, evs = case['nws'], case['events']
+        mo = vf.run_model('sched', c15_tree.model_lines(nws, evs)) if ctx.extract_ok.get('sched') else None
+        c15_tree.check_case(ctx, nws, evs, mo, shrink_new=False)
+        trace, w = c15_tree.run_impl(nws, evs)
+        for (line, f), e in zip(trace, [['tinit']] + evs):
+            print(c15_tree.ev_line(e), '->', line, ('  !! ' + '; '.join(x[3] for x in f)) if f else '')
+        return
     if 'tree' in case:
         t = case['tree']
         log, fnd, quiet = tree_run(pyrandom.Random(t['seed']), t['managers'], t['workers'], t['roots'])
